@@ -164,6 +164,16 @@ class _P:
             else:
                 out.append(c)
 
+    def _is_literal(self) -> bool:
+        c = self.peek()
+        if c == 0x7b:
+            return True
+        if c == 0x7e:       # '~{' introduces a literal8, a lone '~' an atom
+            if self.pos + 1 >= self.n:
+                raise Incomplete()
+            return self.buf[self.pos + 1] == 0x7b
+        return False
+
     def literal(self) -> Lit:
         if self.peek() == 0x7e:  # '~' literal8
             self.pos += 1
@@ -182,21 +192,21 @@ class _P:
         c = self.peek()
         if c == 0x22:
             return self.quoted()
-        if c in (0x7b, 0x7e):
+        if self._is_literal():
             return self.literal()
         raise WireError('syntax', 'expected string got %r' %
                         bytes(self.buf[self.pos:self.pos + 10]), self.pos)
 
     def nstring(self):
         c = self.peek()
-        if c in (0x22, 0x7b, 0x7e):
+        if c == 0x22 or self._is_literal():
             return self.string()
         self.expect(b'NIL')
         return None
 
     def astring(self):
         c = self.peek()
-        if c in (0x22, 0x7b, 0x7e):
+        if c == 0x22 or self._is_literal():
             return self.string()
         val = self.span(_ATOM_OK + b']')
         if not val:
@@ -210,7 +220,7 @@ class _P:
         c = self.peek()
         if c == 0x28:
             return self.list_(depth)
-        if c in (0x22, 0x7b, 0x7e):
+        if c == 0x22 or self._is_literal():
             return self.string()
         tok = self.span(_ATOM_OK + b'\\[]<>.')
         if not tok:
@@ -359,11 +369,18 @@ def _uid_set(p: _P) -> list[int]:
 def _resp_text(p: _P):
     code = None
     if p.peek() == 0x5b:
-        code = _resp_code(p)
-        if p.peek() == 0x20:
-            p.pos += 1
-        elif p.peek() != 0x0d:
-            raise WireError('spacing', 'no SP after response code', p.pos)
+        start = p.pos
+        try:
+            code = _resp_code(p)
+            if p.peek() == 0x20:
+                p.pos += 1
+            elif p.peek() != 0x0d:
+                raise WireError('spacing', 'no SP after response code', p.pos)
+        except WireError:
+            # '[' is also a TEXT-CHAR: the grammar's other alternative is
+            # plain text that happens to begin with a bracket
+            code = None
+            p.pos = start
     text = p.text_to_crlf()
     return code, text
 
@@ -479,7 +496,7 @@ def check_body(val, pos: int, depth: int = 0) -> None:
             raise WireError('body', 'message/rfc822 lines not a number', pos)
     elif mtype.upper() == b'TEXT':
         if len(rest) < 1 or not isinstance(rest[0], int):
-            raise WireError('body', 'text part without line count', pos)
+            raise WireError('body', 'text part without line count: %r' % (val[:9],), pos)
 
 
 def _check_params(params, pos: int) -> None:
